@@ -160,6 +160,25 @@ pub fn in_exhausted_tokio_task<R: 'static>(f: impl FnOnce() -> R + 'static) -> (
     })
 }
 
+/// Drops `x` — when `unwinding`, from a frame that is unwinding from a panic (as when the task owning a guard fails).
+/// A drop is a drop: properties that quantify over every order / placement of drops include this one.
+pub fn drop_placed<T>(x: T, unwinding: bool) {
+    if !unwinding {
+        drop(x);
+        return;
+    }
+    struct Marker;
+    let r = std::panic::catch_unwind(std::panic::AssertUnwindSafe(move || {
+        let _held = x;
+        std::panic::resume_unwind(Box::new(Marker));
+    }));
+    match r {
+        Err(p) if p.is::<Marker>() => {}
+        Err(p) => std::panic::resume_unwind(p),
+        Ok(()) => {}
+    }
+}
+
 pub fn quiet_panics() {
     if std::env::var("MV_DEBUG").is_ok() { return; }
     std::panic::set_hook(Box::new(|_| {}));
